@@ -640,6 +640,141 @@ func growStack(n int) int {
 	return growStack(n-1) + int(pad[n%256])
 }
 
+// structuredCase compares single calls on operands constructed to sit on the
+// numeric boundaries of each algorithm (not of the representation): perfect
+// squares and their neighbours for Sqrt, exact multiples and off-by-one
+// remainders for the division family, products at the word boundaries, powers
+// and their neighbours for text conversion.
+func structuredCase(t *mon.T) {
+	r := t.Rng
+	bits := []int{1, 8, 16, 24, 26, 27, 31, 32, 33, 52, 53, 63, 64, 65, 100, 127, 128, 129, 200, 600}[r.Intn(20)]
+	k := new(big.Int).Rand(rngSource(r), new(big.Int).Lsh(bOne, uint(bits)))
+	if r.Chance(2, 3) {
+		k.SetBit(k, bits-1, 1)
+	}
+	if k.Sign() == 0 {
+		k.SetInt64(1)
+	}
+	mk := func(b *big.Int) *apd.BigInt { return new(apd.BigInt).SetMathBigInt(b) }
+	fail := func(name, why string, args ...*big.Int) {
+		as := []string{}
+		for _, a := range args {
+			as = append(as, abbrevS(a.String()))
+		}
+		t.Fail("bigint-differs-from-mathbig", map[string]interface{}{"method": name, "args": as, "why": why})
+	}
+	switch r.Intn(5) {
+	case 0: // Sqrt at k^2 + {-1, 0, 1}
+		sq := new(big.Int).Mul(k, k)
+		for _, d := range []int64{-1, 0, 1} {
+			x := new(big.Int).Add(sq, big.NewInt(d))
+			if x.Sign() < 0 {
+				continue
+			}
+			want := new(big.Int).Sqrt(x)
+			var z apd.BigInt
+			z.Sqrt(mk(x))
+			a := mk(x)
+			a.Sqrt(a)
+			t.EvalN(2)
+			t.Count("structured/Sqrt")
+			if z.String() != want.String() || a.String() != want.String() {
+				fail("Sqrt", fmt.Sprintf("got %s / aliased %s, math/big %s", z.String(), a.String(), want.String()), x)
+			}
+		}
+		t.Nontrivial("sqrt|" + k.String())
+	case 1: // division family at q*y + {0, 1, y-1}, all sign combinations
+		y := bigValue(r)
+		if y.Sign() == 0 {
+			y.SetInt64(7)
+		}
+		ay := new(big.Int).Abs(y)
+		for _, rem := range []*big.Int{big.NewInt(0), big.NewInt(1), new(big.Int).Sub(ay, bOne)} {
+			if rem.Cmp(ay) >= 0 {
+				continue
+			}
+			x := new(big.Int).Add(new(big.Int).Mul(k, ay), rem)
+			if r.Bool() {
+				x.Neg(x)
+			}
+			wq, wr := new(big.Int).QuoRem(x, y, new(big.Int))
+			wd, wm := new(big.Int).DivMod(x, y, new(big.Int))
+			var q, rr, dd, mm, q2, r2, d2, m2 apd.BigInt
+			q.QuoRem(mk(x), mk(y), &rr)
+			dd.DivMod(mk(x), mk(y), &mm)
+			q2.Quo(mk(x), mk(y))
+			r2.Rem(mk(x), mk(y))
+			d2.Div(mk(x), mk(y))
+			m2.Mod(mk(x), mk(y))
+			t.EvalN(6)
+			t.Count("structured/Division")
+			got := fmt.Sprint(q.String(), rr.String(), dd.String(), mm.String(), q2.String(), r2.String(), d2.String(), m2.String(), rr.Sign(), mm.Sign())
+			want := fmt.Sprint(wq.String(), wr.String(), wd.String(), wm.String(), wq.String(), wr.String(), wd.String(), wm.String(), wr.Sign(), wm.Sign())
+			if got != want {
+				fail("QuoRem/DivMod/Quo/Rem/Div/Mod", "got "+abbrevS(got)+" want "+abbrevS(want), x, y)
+			}
+		}
+		t.Nontrivial("div|" + k.String() + "|" + y.String())
+	case 2: // products and sums at the word boundaries
+		for _, d := range []int64{-1, 0, 1} {
+			a := new(big.Int).Add(new(big.Int).Lsh(bOne, uint([]int{32, 63, 64, 127, 128}[r.Intn(5)])), big.NewInt(d))
+			b := new(big.Int).Add(k, big.NewInt(d))
+			if r.Bool() {
+				a.Neg(a)
+			}
+			var p, s, u apd.BigInt
+			p.Mul(mk(a), mk(b))
+			s.Add(mk(a), mk(b))
+			u.Sub(mk(a), mk(b))
+			t.EvalN(3)
+			t.Count("structured/MulAddSub")
+			if p.String() != new(big.Int).Mul(a, b).String() || s.String() != new(big.Int).Add(a, b).String() || u.String() != new(big.Int).Sub(a, b).String() {
+				fail("Mul/Add/Sub", "differs from math/big", a, b)
+			}
+		}
+		t.Nontrivial("mas|" + k.String())
+	case 3: // text conversion of base^n + {-1,0,1}
+		base := []int{2, 8, 10, 16, 36, 62}[r.Intn(6)]
+		n := int64(1 + r.Intn(80))
+		pw := new(big.Int).Exp(big.NewInt(int64(base)), big.NewInt(n), nil)
+		for _, d := range []int64{-1, 0, 1} {
+			x := new(big.Int).Add(pw, big.NewInt(d))
+			if r.Bool() {
+				x.Neg(x)
+			}
+			a := mk(x)
+			txt := a.Text(base)
+			var back apd.BigInt
+			_, ok := back.SetString(x.Text(base), base)
+			t.EvalN(2)
+			t.Count("structured/Text")
+			if txt != x.Text(base) || !ok || back.String() != x.String() || string(a.Append(nil, base)) != x.Text(base) {
+				fail("Text/SetString/Append", fmt.Sprintf("base %d", base), x)
+			}
+		}
+		t.Nontrivial(fmt.Sprintf("txt|%d|%d", base, n))
+	case 4: // Exp / ModInverse / GCD consistency on structured values
+		m := bigValue(r)
+		m.Abs(m)
+		if m.Cmp(big.NewInt(2)) < 0 {
+			m.SetInt64(97)
+		}
+		e := big.NewInt(int64(r.Intn(300)))
+		want := new(big.Int).Exp(k, e, m)
+		var z apd.BigInt
+		z.Exp(mk(k), mk(e), mk(m))
+		var g apd.BigInt
+		g.GCD(nil, nil, mk(k), mk(m))
+		wg := new(big.Int).GCD(nil, nil, k, m)
+		t.EvalN(2)
+		t.Count("structured/ExpGCD")
+		if z.String() != want.String() || g.String() != wg.String() {
+			fail("Exp/GCD", "differs from math/big", k, e, m)
+		}
+		t.Nontrivial("exp|" + k.String() + "|" + m.String())
+	}
+}
+
 func runC16(r *mon.Run) {
 	r.Rule = "lock-step model-based monitor: pools of 6 apd.BigInt slots mirrored by math/big.Int; sequences of 30-200 calls drawn from " +
 		fmt.Sprint(len(bigMethods)) + " method groups (arithmetic, bitwise, shifts, Exp/GCD/ModInverse/ModSqrt/Sqrt/Binomial/MulRange, Set*, text/JSON/Gob/Scan/Format, " +
@@ -647,7 +782,9 @@ func runC16(r *mon.Run) {
 		"math/big supports occurs; values dense around 0, +/-1, 2^32, 2^63, 2^64, 2^127, 2^128 and random up to 4000 bits. After every call all " +
 		"slots are compared (text, Sign, BitLen, Cmp with 0) and the representation invariants are asserted through the VerifRepr hook (no " +
 		"negative zero, inline words equal |value|, no shared heap big.Int); sequences run in fresh goroutines with deep recursion and GC " +
-		"cycles, and values obtained through MathBigInt must stay stable. distinct_nontrivial = distinct (method, operand values) that changed a slot."
+		"cycles, and values obtained through MathBigInt must stay stable. A second family makes single calls on operands built on the " +
+		"numeric boundaries of each algorithm (k^2 and its neighbours for Sqrt with k of 1..600 bits, q*y+{0,1,y-1} for the division " +
+		"family, products at the word boundaries, base^n and its neighbours for text conversion). distinct_nontrivial = distinct (method, operand values) that changed a slot."
 	r.Assumptions = []string{"math/big.Int is the specification", "calls outside math/big's documented domain (division by zero, negative Sqrt, QuoRem with r aliasing y or z) are skipped"}
 	r.Parallel("sequences", r.N(8000, 1200000), func(t *mon.T) {
 		done := make(chan struct{})
@@ -663,6 +800,7 @@ func runC16(r *mon.Run) {
 		}()
 		<-done
 	})
+	r.Parallel("structured", r.N(60000, 6000000), structuredCase)
 	r.Serial("pinned", func(t *mon.T) {
 		// fixed: negative zero from the uint64 fast paths
 		z := new(apd.BigInt)
@@ -688,6 +826,9 @@ func runC16(r *mon.Run) {
 	})
 	for _, bm := range bigMethods {
 		r.Require("bigint/"+bm.name, 200)
+	}
+	for _, k := range []string{"structured/Sqrt", "structured/Division", "structured/MulAddSub", "structured/Text", "structured/ExpGCD"} {
+		r.Require(k, 1000)
 	}
 	for _, k := range []string{"bigint-repr/heap", "bigint-repr/inline", "bigint-repr/inline-neg"} {
 		r.Require(k, 1000)
